@@ -238,6 +238,14 @@ fn check_update(sp: &ParaSpec, v: &[usize], kind: usize, lossless: bool) -> Vec<
         2 => {
             prior.push_str("X-Foreign-First: keep 1\n");
             foreign.push("X-Foreign-First: keep 1".into());
+            // a foreign field whose name differs from an own key only in letter case (field names are exact)
+            if let Some(f0) = sp.fields.first() {
+                let alt = if f0.name.to_lowercase() != f0.name { f0.name.to_lowercase() } else { f0.name.to_uppercase() };
+                if alt != f0.name && !sp.fields.iter().any(|f| f.name == alt) {
+                    prior.push_str(&format!("{}: keep 2\n", alt));
+                    foreign.push(format!("{}: keep 2", alt));
+                }
+            }
             for (i, (f, _)) in fs.iter().enumerate() {
                 if lossless && i == 0 {
                     prior.push_str("# a comment\n");
